@@ -140,14 +140,13 @@ func (c *context) SendMsg(m *protocol.Message) error {
 	c.recvPipe = nil
 	bestEffort := c.bestEffort
 	tq := nilQ
-	cq := c.closeQ
-	s.Unlock()
-
 	if bestEffort {
 		tq = closedQ
 	} else if c.sendExpire > 0 {
 		tq = time.After(c.sendExpire)
 	}
+	cq := c.closeQ
+	s.Unlock()
 
 	m.Header = bt
 
@@ -260,10 +259,14 @@ outer:
 			break
 		}
 
+		s.Lock()
+		ttl := s.ttl
+		s.Unlock()
+
 		// Move backtrace from body to header.
 		hops := 0
 		for {
-			if hops >= s.ttl {
+			if hops >= ttl {
 				m.Free() // ErrTooManyHops
 				continue outer
 			}
